@@ -277,10 +277,18 @@ class LOC(dns.rdata.Rdata):
                         value = value[0:-1]
                     vprec = float(value) * 100.0  # m -> cm
 
-        # Try encoding these now so we raise if they are bad
-        _encode_size(size, "size")
-        _encode_size(hprec, "horizontal precision")
-        _encode_size(vprec, "vertical precision")
+        # The wire form keeps one digit and a power of ten of each of these (and
+        # encoding them raises if they are bad): keep that value, so that the text
+        # printed for the record reads back to the same record.
+        size = float(_decode_size(_encode_size(size, "size"), "size"))
+        hprec = float(
+            _decode_size(
+                _encode_size(hprec, "horizontal precision"), "horizontal precision"
+            )
+        )
+        vprec = float(
+            _decode_size(_encode_size(vprec, "vertical precision"), "vertical precision")
+        )
 
         return cls(rdclass, rdtype, latitude, longitude, altitude, size, hprec, vprec)
 
